@@ -82,10 +82,10 @@ def headerBytes (p : Params) : List Nat :=
 def incompleteHeader (order : Nat) : List Nat :=
   magicIncomplete ++ zeros (totalHeaderSize order - magicIncomplete.length)
 
-/-- float32 bit pattern `< 1.0f` (the `ReadHeader` check); NaN compares false. -/
-def floatLtOne (bits : Nat) : Bool :=
+/-- float32 bit pattern for which `!(x >= 1.0)` holds (the `ReadHeader` check, written so that NaN is rejected too) -/
+def floatNotGeOne (bits : Nat) : Bool :=
   let isNaN := (bits / 2^23) % 256 = 255 ∧ bits % 2^23 ≠ 0
-  if isNaN then false
+  if isNaN then true
   else if bits / 2^31 % 2 = 1 then true      -- negative (incl. -0.0)
   else bits < bitsOneF
 
@@ -121,7 +121,7 @@ def recognize (file : List Nat) : Recognized :=
     match readFixed (file.drop sizeofSanity) with
     | none => .errEof
     | some f =>
-      if floatLtOne f.multBits then .errFormat
+      if floatNotGeOne f.multBits then .errFormat
       else match readCounts f.order (file.drop (sizeofSanity + sizeofFixed)) with
         | none => .errEof
         | some cs => .binary { fixed := f, counts := cs }
